@@ -102,6 +102,7 @@ func newClient(s *Swarm, remoteAddr Addr, netConn net.Conn) (*Conn, error) {
 	c := &Conn{
 		swarm:      s,
 		remoteAddr: remoteAddr,
+		localAddr:  s.LocalAddrs()[0],
 		shutdown:   make(chan struct{}),
 
 		newChanReqs: newChans,
